@@ -159,13 +159,87 @@ def _blame(exc):
     return "harness", "?"
 
 
+class AbortJob(BaseException):
+    """Ends the current job at once (no shrinking): raised when the library
+    did not return - every further attempt would burn the CPU budget again."""
+
+    def __init__(self, case, msg):
+        super().__init__(msg)
+        self.case = case
+        self.msg = msg
+
+
+IN_JOB = False
+
+
+def _hang(case, exc):
+    msg = f"a call into the library did not return: {exc}"
+    if IN_JOB:
+        raise AbortJob(case, msg) from exc
+    raise Violation(msg, case) from exc
+
+
+class CpuBudgetExceeded(Exception):
+    """Raised (by SIGVTALRM) inside a case that burnt its CPU budget: an endless
+    loop.  CPU time, not wall time, so machine load cannot trigger it."""
+
+
+CASE_CPU_BUDGET = float(os.environ.get("VF_CASE_CPU_BUDGET", "40"))
+_budget_depth = [0]
+
+
+def _on_vtalrm(_sig, frm):
+    """Only interrupt *library* code: if the CPU budget runs out while the
+    interpreter is somewhere else (numpy, Hypothesis, the harness, a gc
+    callback), look again a little later.  An endless loop in the library is
+    caught on one of the next ticks; anything else is left to the pool watchdog."""
+    import signal
+
+    global CASE_CPU_BUDGET
+    fn = os.path.abspath(frm.f_code.co_filename) if frm is not None else ""
+    if fn.startswith(_REPO_ROOT):
+        budget = CASE_CPU_BUDGET
+        CASE_CPU_BUDGET = min(CASE_CPU_BUDGET, 3.0)  # the tree is failing: do not pay the full budget again
+        raise CpuBudgetExceeded(
+            f"no result after {budget:.0f} s of CPU time, still executing {os.path.relpath(fn, REPO)}:{frm.f_lineno}")
+    signal.setitimer(signal.ITIMER_VIRTUAL, 0.05)
+
+
+class cpu_budget:
+    """Arms a CPU-time alarm around one case (main thread of a process only)."""
+
+    def __enter__(self):
+        import signal
+        import threading
+
+        self.armed = False
+        if threading.current_thread() is threading.main_thread() and _budget_depth[0] == 0:
+            try:
+                signal.signal(signal.SIGVTALRM, _on_vtalrm)
+                signal.setitimer(signal.ITIMER_VIRTUAL, CASE_CPU_BUDGET)
+                self.armed = True
+                _budget_depth[0] += 1
+            except (ValueError, OSError, AttributeError):
+                pass
+        return self
+
+    def __exit__(self, *exc):
+        import signal
+
+        if self.armed:
+            signal.setitimer(signal.ITIMER_VIRTUAL, 0)
+            _budget_depth[0] -= 1
+        return False
+
+
 def checked(mod, case, rec):
     """Run mod.check_case(case, rec).  Violations that are instances of a
     listed known finding are counted and swallowed so the search goes on.
     Exceptions raised by the library where the harness expected a value are
     violations; exceptions raised by harness code are harness errors."""
     try:
-        mod.check_case(case, rec)
+        with cpu_budget():
+            mod.check_case(case, rec)
     except Violation as v:
         if v.case is None:
             v.case = case
@@ -176,6 +250,8 @@ def checked(mod, case, rec):
         raise
     except HarnessError:
         raise
+    except CpuBudgetExceeded as exc:
+        _hang(case, exc)
     except Exception as exc:  # noqa: BLE001
         who, where = _blame(exc)
         if who == "repo":
@@ -197,13 +273,18 @@ class lib_guard:
 
     def __init__(self, case_fn):
         self.case_fn = case_fn
+        self.budget = cpu_budget()
 
     def __enter__(self):
+        self.budget.__enter__()
         return self
 
     def __exit__(self, et, exc, tb):
+        self.budget.__exit__(et, exc, tb)
         if exc is None or isinstance(exc, (Violation, HarnessError)):
             return False
+        if isinstance(exc, CpuBudgetExceeded):
+            _hang(self.case_fn(), exc)
         if not isinstance(exc, Exception):
             return False
         who, where = _blame(exc)
@@ -290,18 +371,41 @@ def hyp_run_machine(mod, machine_cls, rec, seed, max_examples, steps, shrink=Tru
 # --------------------------------------------------------------------------
 
 
+def explicit_and_regression_cases(mod):
+    import glob
+
+    reg_cases = []
+    for path in sorted(glob.glob(os.path.join(VERIF_DIR, "regressions", f"{mod.ID}-*.json"))):
+        with open(path) as fp:
+            reg_cases.append(json.load(fp)["case"])
+    explicit = list(mod.explicit_cases()) if hasattr(mod, "explicit_cases") else []
+    return reg_cases, explicit
+
+
 def _job_entry(args):
+    global IN_JOB
     modname, job = args
     mod = importlib.import_module(modname)
     rec = Rec()
     t0 = time.time()
     err = None
+    IN_JOB = True
     try:
-        mod.run_job(job, rec)
+        if job.get("kind") == "__explicit__":
+            reg_cases, explicit = explicit_and_regression_cases(mod)
+            run_cases(mod, reg_cases + explicit, rec, stop_at_first=False)
+            rec.extra["regression_cases"] += len(reg_cases)
+            rec.extra["explicit_cases"] += len(explicit)
+        else:
+            mod.run_job(job, rec)
     except Violation as v:  # a job may let a violation escape
         rec.failures.append((v.case, v.msg))
+    except AbortJob as a:
+        rec.failures.append((a.case, a.msg))
     except Exception:  # noqa: BLE001
         err = traceback.format_exc()
+    finally:
+        IN_JOB = False
     d = rec.dump()
     d["error"] = err
     d["job"] = job.get("name", "?")
@@ -309,16 +413,36 @@ def _job_entry(args):
     return d
 
 
-def run_jobs(mod, jobs, procs=None):
+def run_jobs(mod, jobs, procs=None, stall_limit=300):
+    """Run the jobs in a fork pool.  Watchdog: if no job finishes for
+    `stall_limit` seconds the pool is torn down and the run reported as
+    inconclusive (a library call that never returns must not hang the check)."""
     import multiprocessing as mp
 
     procs = procs or min(16, os.cpu_count() or 1)
     args = [(mod.__name__, j) for j in jobs]
-    if procs <= 1 or len(jobs) <= 1:
+    if procs <= 1:
         return [_job_entry(a) for a in args]
     ctx = mp.get_context("fork")
-    with ctx.Pool(procs, maxtasksperchild=None) as pool:
-        return list(pool.imap_unordered(_job_entry, args, chunksize=1))
+    out = []
+    pool = ctx.Pool(procs, maxtasksperchild=None)
+    try:
+        it = pool.imap_unordered(_job_entry, args, chunksize=1)
+        for _ in args:
+            try:
+                out.append(it.next(timeout=stall_limit))
+            except mp.TimeoutError:
+                pending = sorted({j.get("name", "?") for j in jobs} - {r["job"] for r in out})
+                out.append({"evaluations": 0, "nt": set(), "classes": Counter(), "samples": [], "failures": [],
+                            "excluded_known": Counter(), "extra": Counter({"watchdog_timeouts": 1}),
+                            "error": f"TIMEOUT: no job finished within {stall_limit} s; unfinished jobs: {pending[:8]} "
+                                     "(a call into the library did not return, or the machine is overloaded) - inconclusive",
+                            "job": "watchdog", "wall": stall_limit})
+                break
+    finally:
+        pool.terminate()
+        pool.join()
+    return out
 
 
 def merge(results):
